@@ -25,7 +25,7 @@ META = {
             "verified entry code); that real compiled code verifies is checked by C04's bytecode-verifier stream on "
             "every lambda of the real heap, not proved for the compiler model. The old theorem with the hypothesis is kept; the equivalence clause (later evaluations return what a twin VM returns) is carried by "
             "T07.1's 'heap unchanged + quiescent registers' plus the twin-VM exploration, not by a closed "
-            "observational-equivalence theorem. Machine.lean is hand-written; its tie to run.rs is the lock-step "
+            "observational-equivalence theorem for the GENERIC heap (for the concrete machine see ROUND 4). ROUND 4 (heap simulation): GcRegs is discharged for the real collector model (cgc_regs): failed_eval_resets_cgc, sp_zero_between_evaluations_cgc, consecutive_failures_quiescent_cgc are the instantiated corollaries on the concrete machine. The equivalence clause T07.4 IS now a theorem on the concrete machine, failed_eval_equivalent_later: the state after the error epilogue (registers reset, stack wiped, collected) is Sim-related (equal up to an injection on heap addresses on everything reachable from the globals) to the twin that kept the heap of the failing instruction with idle registers and did not collect (failed_twin_sim), prepare_eval of the same form on both keeps them related (prepare_sim), and the next evaluation - any number of instructions, with the periodic collections - ends the same way on both: HALT with an equal datum in acc, or the same failure in Sim-related states (related stacks, from which the stack trace is computed). Explicit hypotheses: ExtLaws/ExtGood (unmodelled builtins, eval compiler, VPUSH), CompLaws/CompGood (the compiler inside prepare_eval), GoodI of the state the failed evaluation started in, SizeBounded (heaps <= 2^62 cells) and StackDiscAlong (frame discipline of the current instruction) along the three runs. Stated for ONE later evaluation from the post-failure state; iterating over a history needs the epilogue of the twin to be absorbed on the right as well (not done). Output and stack-trace rendering are outside the machine model and stay with the twin-VM exploration. Machine.lean is hand-written; its tie to run.rs is the lock-step "
             "correspondence (differential testing on reached states).",
     "technique": "Lean 4 proof (error epilogue resets to a quiescent state for every program; induction over histories) + lock-step instruction replay + twin-VM differential oracle",
 }
@@ -49,6 +49,17 @@ THEOREMS = [
     "Marwood.Proofs.C07.balanced_at",
     "Marwood.Proofs.C07.failed_idle_at",
     "Marwood.Proofs.C07.sp_zero_between_evaluations_concrete",
+    "Marwood.Proofs.C07.failed_eval_resets_cgc",
+    "Marwood.Proofs.C07.sp_zero_between_evaluations_cgc",
+    "Marwood.Proofs.C07.consecutive_failures_quiescent_cgc",
+    "Marwood.Proofs.C07.runLoop_reaches",
+    "Marwood.Proofs.C07.failed_eval_equivalent_later",
+    "Marwood.Lemmas.Good.failed_twin_sim",
+    "Marwood.Lemmas.Good.prepare_sim",
+    "Marwood.Lemmas.Good.onError_goodI",
+    "Marwood.Lemmas.Good.traceFrames_rel",
+    "Marwood.Proofs.C07.demo_failed_eval",
+    "Marwood.Lemmas.Good.safe_of_good",
 ]
 
 
